@@ -160,6 +160,73 @@ def _check_gate(case):
     return True, "ok"
 
 
+def _direct_wraps():
+    """wrappers built with the wrapper classes themselves (no normalisation by the .controlled / .dagger / .power helpers)"""
+    from orquestra.quantum.circuits import _gates as G
+    return {"C1": lambda g: G.ControlledGate(g, 1), "C2": lambda g: G.ControlledGate(g, 2), "DAG": lambda g: G.Dagger(g), "P2": lambda g: G.Power(g, 2),
+            "P0.5": lambda g: G.Power(g, 0.5), "P-1": lambda g: G.Power(g, -1), "EXP": lambda g: G.Exponential(g)}
+
+
+def _check_direct(case):
+    """every nesting of directly constructed wrappers (a controlled gate around a controlled gate, a dagger around a hermitian gate, around a
+    power, ...) comes back with exactly the same nesting, and as an equal object"""
+    import json
+    from orquestra.quantum.circuits import Circuit, circuit_from_dict, to_dict
+    name, depth = case
+    num, sym = _pool()
+    base = num.get(name) or sym[name]
+    W = _direct_wraps()
+    symbolic = name in sym
+    ws = [w for w in W if not (symbolic and (w.startswith("P") or w == "EXP"))]
+    for d in range(1, depth + 1):
+        for ch in itertools.product(ws, repeat=d):
+            if sum(int(w[1]) for w in ch if w[0] == "C") > 3:
+                continue
+            g = base
+            for w in ch:
+                g = W[w](g)
+            qs = tuple(range(g.num_qubits))[::-1]
+            circ = Circuit([g(*qs)], n_qubits=g.num_qubits)
+            back = circuit_from_dict(json.loads(json.dumps(to_dict(circ))))
+            op = back.operations[0]
+            if _shape(op.gate) != _shape(g):
+                return False, f"{name} wrapped directly by {ch}: nesting {_shape(g)} came back as {_shape(op.gate)}"
+            if back != circ or op.qubit_indices != qs or not _params_equal(tuple(op.gate.params), tuple(g.params)):
+                return False, f"{name} wrapped directly by {ch}: deserialised circuit differs from the original"
+    return True, "ok"
+
+
+def _check_name_clash(i):
+    """two DIFFERENT definitions under one gate name in one circuit are refused wherever they sit (adjacent, separated by built-in gates, separated by
+    other custom gates, under wrappers); the same definition used many times is fine"""
+    import sympy
+    from orquestra.quantum.circuits import Circuit, CustomGateDefinition, X, H, to_dict, circuit_from_dict
+    import json
+    t = sympy.Symbol("t")
+    d1 = CustomGateDefinition("U", sympy.Matrix([[0, 1], [1, 0]]), ())
+    d2 = CustomGateDefinition("U", sympy.Matrix([[1, 0], [0, sympy.I]]), ())
+    v = CustomGateDefinition("V", sympy.Matrix([[1, 0], [0, -1]]), ())
+    w = CustomGateDefinition("W", sympy.Matrix([[sympy.cos(t), -sympy.sin(t)], [sympy.sin(t), sympy.cos(t)]]), (t,))
+    fillers = [[], [X(1)], [v()(1)], [v()(1), w(0.3)(0)], [H(0), v()(1), X(0)], [w(0.1)(1), v()(0), w(0.2)(1)]]
+    wraps = [lambda g: g, lambda g: g.controlled(1), lambda g: g.dagger]
+    for mid in fillers:
+        for wa, wb in itertools.product(range(3), repeat=2):
+            ga, gb = wraps[wa](d1()), wraps[wb](d2())
+            ops = [ga(*range(ga.num_qubits))] + mid + [gb(*range(gb.num_qubits))]
+            for order in (ops, ops[::-1]):
+                try:
+                    data = to_dict(Circuit(order))
+                except ValueError:
+                    continue
+                back = circuit_from_dict(json.loads(json.dumps(data)))
+                return False, f"a circuit holding two different definitions named 'U' ({len(mid)} operations between them) was serialised; it comes back as {back}"
+            same = [ga(*range(ga.num_qubits))] + mid + [wraps[wb](d1())(*range(gb.num_qubits))]
+            back = circuit_from_dict(json.loads(json.dumps(to_dict(Circuit(same)))))
+            if back != Circuit(same):
+                return False, "a circuit using one definition several times does not round-trip"
+    return True, "ok"
+
+
 def _gate_cases(tier):
     num, sym = _pool()
     depth = 2 if tier == "quick" else 3
@@ -263,6 +330,12 @@ def build(tier, seed):
     obs.append(vprop.enum_ob("C05.gates.enum", F_OPS[:10], lambda: _gate_cases(tier), _check_gate,
                              "every gate of the pool (all built-ins with numeric / integer / symbolic / indexed-symbol / expression parameters, custom gates) x every wrapper nesting up to the "
                              "depth bound: dict -> JSON text -> dict -> gate keeps nesting, control counts, exponents, parameters, free symbols, qubit tuple; equal object; second round trip equal", timeout=1500))
+    dd = 2 if tier == "quick" else 3
+    obs.append(vprop.enum_ob("C05.direct_nesting.enum", F_OPS[:10], lambda: [(n, dd) for n in ("X", "Z", "CNOT", "RX(numeric)", "custom FIXED", "custom ROT(0.3, 1.5)", "RX(symbols)", "custom ROT(alpha, 2*beta)")],
+                             _check_direct, "wrappers constructed directly with the wrapper classes (no normalisation), every nesting up to the depth bound on 8 base gates: same nesting, "
+                             "control counts, exponents and parameters after dict -> JSON -> dict -> gate; equal object", timeout=1500))
+    obs.append(vprop.enum_ob("C05.name_clash.enum", ["orquestra.quantum.circuits._circuit:Circuit.collect_custom_gate_definitions", S + ":to_dict"], lambda: [0], _check_name_clash,
+                             "two different custom definitions under one name in one circuit are refused wherever they sit (6 kinds of operations between them, under wrappers, both orders)"))
     obs.append(vprop.enum_ob("C05.circuits.enum", F_OPS[:4] + [S + ":save_circuit", S + ":load_circuit", S + ":save_circuitset", S + ":load_circuitset"], lambda: [0], _check_circuits,
                              "empty circuits, idle qubits, custom definitions, circuit lists whose members define same-named custom gates differently, clashing names in one circuit rejected, files"))
 
